@@ -284,6 +284,10 @@ func (m *AWSKMS) DecryptKey(ctx context.Context, keyBytes []byte) ([]byte, error
 			}
 
 			decryptedKeyBytes, err := m.Crypto.Decrypt(en.EncryptedKey, output.Plaintext)
+
+			// the plaintext data key is no longer needed, success or not
+			internal.MemClr(output.Plaintext)
+
 			if err != nil {
 				log.Debugf("error crypto decrypt: %s\n", err)
 				continue
